@@ -56,6 +56,7 @@ def run(repo, rep, tier):
     _tokenrefs(repo, rep)
     _layout(repo, rep)
     _handled(repo, rep)
+    _formatter_total(repo, rep)
     _source_identity(repo, rep)
     _extent(repo, rep)
     _retype(repo, rep)
@@ -641,3 +642,74 @@ def _handled(repo, rep):
               "rcontext['__error__'] before the fallback is rendered",
               construct="handled-frames-dropped", where=L.where(f),
               detail=detail[:300])
+
+
+def _formatter_total(repo, rep):
+    """The message is computed from the recorded frames whenever it is asked
+    for (frames of outer call sites are appended while the exception
+    travels), it lists every record, and formatting the render arguments
+    cannot fail because of a hostile argument object."""
+    f = repo.func("chameleon.exc.ExceptionFormatter.__call__")
+    wh = L.where(f)
+    stores = [src(n) for n in ast.walk(f.node)
+              if isinstance(n, (ast.Assign, ast.AugAssign, ast.AnnAssign))
+              for t in (n.targets if isinstance(n, ast.Assign) else [n.target])
+              if isinstance(t, ast.Attribute) and src(t.value) == "self"]
+    paths = [p for p in P.enum_paths(f.node.body, unroll=1)
+             if p[-1][0] == "return"]
+    skipping = [p for p in paths if not any(
+        e[0] == "loop" and isinstance(e[2], ast.For) and
+        src(e[2].iter) == "self._errors" for e in p)]
+    rep.check(not stores and bool(paths) and not skipping, "R12.6",
+              f.qualname, "every call formats the frames recorded so far "
+              "(no memoised message, no return that by-passes the loop over "
+              "self._errors): frames added by outer call sites show up",
+              construct="formatter-stateless", where=wh,
+              detail=("stores %s" % stores[:2]) if stores else (
+                  P.path_text(skipping[0], 8) if skipping else ""))
+    # nested render: the inner formatter takes over the whole list of the
+    # outer context
+    r = repo.func(BT + "render")
+    ext = [n for n in ast.walk(r.node) if isinstance(n, ast.Call)
+           and src(n.func).endswith("._errors.extend")]
+    okx = len(ext) == 1 and len(ext[0].args) == 1 and \
+        isinstance(ext[0].args[0], ast.Name)
+    detail = src(ext[0])[:120] if ext else "no extend"
+    if okx:
+        gs = [src(t).replace(" ", "") for t, v in L.guards_of(ext[0], r.node)
+              if not isinstance(t, ast.ExceptHandler)]
+        name = ext[0].args[0].id
+        okx = any(g in ("%sisnotformatter._errors" % name,
+                        "formatter._errorsisnot%s" % name) for g in gs)
+        detail += " under %s" % gs
+    rep.check(okx, "R12.6", r.qualname, "when an already decorated exception "
+              "passes an outer render(), all frames recorded there are "
+              "appended (the only test is whether it is the very same list): "
+              "equal-looking frames of a recursive template are kept",
+              construct="nested-frames-all", where=L.where(r), detail=detail)
+    # value_repr is total
+    v = repo.func("chameleon.utils.value_repr")
+    risky = [n for n in ast.walk(v.node) if isinstance(n, ast.Call)
+             and src(n.func) in ("getattr", "repr")]
+    okv = bool(risky)
+    detail = ""
+    for c in risky:
+        prot = False
+        for t, _ in L.guards_of(c, v.node):
+            pass
+        a = getattr(c, "_parent", None)
+        while a is not None and a is not v.node:
+            if isinstance(a, ast.Try) and any(c is x for b in [a.body]
+                                              for s_ in b
+                                              for x in ast.walk(s_)):
+                if any(h.type is None or src(h.type) in (
+                        "Exception", "BaseException") for h in a.handlers):
+                    prot = True
+            a = getattr(a, "_parent", None)
+        if not prot:
+            okv = False
+            detail = src(c)
+    rep.check(okv, "R12.6", v.qualname, "describing a render argument never "
+              "raises: attribute access on the user's object is wrapped in a "
+              "handler for every Exception", construct="value-repr-total",
+              where=L.where(v), detail=detail)
